@@ -168,9 +168,10 @@ func (r *qLogReader) seekRecord(ctx context.Context, olderThan time.Time) (err e
 	}
 
 	err = r.seekTS(ctx, olderThan.UnixNano())
-	if err == nil {
+	if err == nil && !r.seekFellBack {
 		// Read to the next record, because we only need the one that goes
-		// after it.
+		// after it.  Don't skip anything if the record isn't in the files and
+		// the reader has fallen back to the start.
 		_, err = r.ReadNext()
 	}
 
